@@ -89,7 +89,10 @@ ParseLitX(cs, baseArg, full) ==
            expBad == hasExp /\ (~es.has \/ es.invalSep \/ es.prev = "_"
                                 \/ (IF eneg THEN Gt(es.E, Int64MinMag) ELSE Gt(es.E, Int64Max)))
            endBad == full /\ es.next <= n                         \* trailing characters (Parse); Scan stops at the first foreign character
-       IN IF i0 > n \/ mantBad \/ expBad \/ endBad THEN Reject
+           \* ... unless that character is not ASCII: Scan reads bytes through a rune reader and a multi-byte rune is an
+           \* "invalid rune" error, not the end of the number (math/big's Float.Scan does the same)
+           runeBad == ~full /\ es.next <= n /\ Code(cs[es.next]) >= 128
+       IN IF i0 > n \/ mantBad \/ expBad \/ endBad \/ runeBad THEN Reject
           ELSE [ok |-> TRUE, inf |-> FALSE, neg |-> neg, base |-> b, M |-> ms.M, fdigits |-> fdigits,
                 ebase |-> ebase, exp |-> IMk(eneg, es.E)]
 
